@@ -465,4 +465,77 @@ def c02_i(ctx: Ctx):
     return handler_order(ctx, "C02-i", ["signac.__main__", "signac.project", "signac.job"]) + swapped_arguments(ctx, "C02-i", ['signac.job', 'signac.project']) + pure_logging(ctx, "C02-i", ['signac.job', 'signac.project', 'signac.__main__'])
 
 
-RULES = [c02_a, c02_b, c02_c, c02_d, c02_e, c02_f, c02_g, c02_h, c02_i]
+@rule("C02-j")
+def c02_j(ctx: Ctx):
+    """The flag `_directory_known` (init(validate_statepoint=False) and the document / stores getters skip creating the job directory when it is set) is
+    asserted only where the existence of the directory was established: the constructor takes it from its caller (C02-e), init() sets it after the
+    directory test / creation. Every other write in the job module must clear it - or sit behind the success of the operation that created the directory
+    (the re-key's rename: `should_init`)."""
+    R = "C02-j"
+    out = []
+    JOBCLS = "signac.job:Job"
+    n_sites = 0
+
+    def value_kind(fi, v):
+        """'false' | 'true' | ('param', name) | 'other'"""
+        f = ctx.fold(v, fi)
+        if f is False:
+            return "false"
+        if f is True:
+            return "true"
+        if isinstance(v, ast.Name) and v.id in fi.params:
+            return ("param", v.id)
+        return "other"
+
+    def established(fi, node):
+        facts = common.facts_at(ctx, fi, node, "nx")      # also on the paths that come out of exception handlers
+        if any(pol and ("should_init" in t.replace(" ", "") and "not" not in t) for (t, pol) in facts):
+            return True
+        if any(pol and "os.path.isdir(" in t for (t, pol) in facts):
+            return True
+        return False
+
+    def judge(fi, node, kind, via):
+        k = f"{fi.qual}|asserts-directory:{via}"
+        if kind == "false":
+            out.append(ctx.ok(R, fi, node, "the flag is cleared", construct=k, nontrivial=False))
+        elif fi.qual == JOBCLS + ".init":
+            out.append(ctx.ok(R, fi, node, "init() sets the flag (after its directory test / creation; ordering decided by C02-b/C02-c)", construct=k))
+        elif fi.qual == JOBCLS + ".__init__" and isinstance(kind, tuple):
+            out.append(ctx.ok(R, fi, node, "the constructor takes the flag from its caller (decided at open_job: C02-e)", construct=k))
+        elif established(fi, node):
+            out.append(ctx.ok(R, fi, node, "the flag is set behind the success of the operation that created / found the directory", construct=k))
+        else:
+            out.append(ctx.viol(R, fi, node, f"`{canon(node)[:70]}` marks the job directory as known to exist ({via}) on a path where nothing established that - e.g. the re-key of a job "
+                                "that was never initialised falls through with ENOENT and moves nothing: the document / stores getters then skip init(), the first write "
+                                "fails with FileNotFoundError (or BufferedError) and nothing is persisted", construct=k))
+
+    for fi in ctx.prog.functions_of_module("signac.job"):
+        for n in body_nodes(fi):
+            if isinstance(n, ast.Assign) and any(isinstance(t, ast.Attribute) and t.attr == "_directory_known" for t in n.targets):
+                n_sites += 1
+                kind = value_kind(fi, n.value)
+                if isinstance(kind, tuple) and fi.qual != JOBCLS + ".__init__":
+                    # a helper that sets the flag from its parameter: judged at its call sites
+                    pname = kind[1]
+                    for g in ctx.prog.funcs.values():
+                        if g.module.is_dep:
+                            continue
+                        for c in body_nodes(g):
+                            if isinstance(c, ast.Call) and fi.qual in common.targets_of(ctx, g, c):
+                                a = common.arg_for_param(fi, c, pname)
+                                if a is None:
+                                    d = fi.default_of(pname)
+                                    a = d
+                                if a is None:
+                                    out.append(ctx.inc(R, g, c, f"value handed to {fi.name}({pname}=...) not found", construct=f"{g.qual}|asserts-directory:{fi.name}"))
+                                    continue
+                                judge(g, c, value_kind(g, a), f"{fi.name}({pname}={canon(a)})")
+                else:
+                    judge(fi, n, kind, "assignment")
+    if not n_sites:
+        out.append(ctx.inc(R, None, None, "no write of _directory_known found in signac.job"))
+    return out
+
+
+RULES = [c02_a, c02_b, c02_c, c02_d, c02_e, c02_f, c02_g, c02_h, c02_i, c02_j]
